@@ -284,6 +284,9 @@ func (r *Run) Finish() int {
 		}
 		cov["known_findings_observed"] = kf
 	}
+	if len(r.violKeys) > 0 {
+		cov["violation_keys"] = r.violKeys
+	}
 	if len(r.viol) > 0 {
 		vs := []map[string]string{}
 		for _, v := range r.viol {
